@@ -142,7 +142,9 @@ class Gateway:
             ret = child_id in self.sensors[sensorid].children
             if not ret:
                 _LOGGER.warning("Child %s is unknown", child_id)
-        if not ret and AwesomeVersion(self.protocol_version) >= AwesomeVersion("2.0"):
+        if not ret and not AwesomeVersion("2.0") > AwesomeVersion(
+            self.protocol_version
+        ):
             _LOGGER.info("Requesting new presentation for node %s", sensorid)
             msg = Message(gateway=self).modify(
                 node_id=sensorid,
